@@ -649,6 +649,15 @@ int main() {
             dup2(efd, 2);
             g_outfd = pfd[1];
             alarm((unsigned)((timeoutMs + 999) / 1000));
+            if (j.has("stack_kb")) {
+                // run this job with a production-sized native stack (the driver's default is generous so that ASan's larger
+                // frames do not turn bounded program recursion into a false crash): growth is checked against the soft limit
+                struct rlimit rl;
+                if (getrlimit(RLIMIT_STACK, &rl) == 0) {
+                    rl.rlim_cur = (rlim_t)j.geti("stack_kb") * 1024;
+                    setrlimit(RLIMIT_STACK, &rl);
+                }
+            }
             runJob(j);
             _exit(0);
         }
